@@ -2,7 +2,7 @@
    Each entry: (package dir, enclosing function, ranged expression, hash of the normalised
    statement as printed by the translator) with the justification why the iteration order of
    the map cannot reach the output bytes or the error list — or the statement that it CAN
-   (OrderDependent, with the key of the known finding).  Gen/MapRanges.v is regenerated from
+   (OrderDependent, with the key of the known finding; none at present).  Gen/MapRanges.v is regenerated from
    /repo on every run; the obligation  generated ⊆ reviewed  (by computation) fails as soon as
    a map range is added or its statement is edited, until the new statement has been reviewed
    here.  Each tag names the lemma of Proofs/C08.v that covers the loop shape. *)
@@ -34,25 +34,24 @@ Definition reviewed : list (string * string * string * string * tag) :=
     (* duplicate-case errors: an identical type is never inserted twice into seen (if !haserr),
        so at most one entry is types.Identical to the case type: ts_cases_perm *)
     ("cl", "compileTypeSwitchStmt", "seen", "e69fdafca2fc9082", AtMostOneMatch);
-    (* per project: first-seen main / no-main project + multi flags (only (proj,multi) with
-       multi=false is used, and then the project of that class is unique) — symmetric; but
-       gmxProjMain(v) installs ld.typ on the type loader of v's game class only `if ld.typ == nil`:
-       two projects WITHOUT project file whose default class has the same name (getGameClass
-       disambiguates only when nproj > 1, and nproj counts project files) share one loader and the
-       first project in map order wins *)
-    ("cl", "gmxCheckProjs", "ctx.projs", "e2c7fbf032a8756d", OrderDependent "projs-default-class-collision");
+    (* repaired (sorted keys): the range only collects the project extensions, sort.Strings(exts) follows,
+       and the per-project work (first-seen main / no-main project, `if ld.typ == nil` of gmxProjMain) is
+       done in a second loop over the SORTED extensions: first_wins_sorted_perm *)
+    ("cl", "gmxCheckProjs", "ctx.projs", "73d872360358c80a", SortedAfter);
     (* rec.Def / rec.Implicit / recordFuncLit per distinct *ast.Ident key *)
     ("cl", "goxRecorder.Complete", "p.referDefs", "c174eb508b2b9a9c", KeyedEvents);
     (* rec.Use per distinct name key *)
     ("cl", "goxRecorder.Complete", "p.referUses", "622b81c1770e20dd", KeyedEvents);
-    (* loadType / loadSymbol of every Go-file symbol in MAP ORDER; each load appends its own
-       errors to ctx.errs: two Go-file types with an error each give two error-list orders *)
-    ("cl", "initGopPkg", "ctx.syms", "caa75b6ae9a965bd", OrderDependent "gofile-type-errors-order");
+    (* repaired: the range only collects the names that are not XGo symbols, sort.Strings(names) follows, and
+       loadType / loadSymbol run in a second loop over the SORTED names (membership in ctx.syms re-checked, a
+       load may delete or add symbols): log_loop_sorted_perm *)
+    ("cl", "initGopPkg", "ctx.syms", "1ce40c634cba7601", SortedAfter);
     (* class file by clsfile name: at most one class file of a package has a given base name
        per project (a second project file panics "multiple project files found" in loadClass) *)
     ("cl", "pkgCtx.lookupClassNode", "p.classes", "311cdd4adef26611", UniqueMatch);
-    (* no package "main": the FIRST package of the map is compiled — any of them *)
-    ("x/build", "Context.loadPackage", "pkgs", "12b0380aaff8bc3c", OrderDependent "builddir-two-packages")
+    (* repaired: no package "main": the names are collected, sorted, and the first SORTED name is compiled
+       (an empty map is an error): pick_any_sorted_perm *)
+    ("x/build", "Context.loadPackage", "pkgs", "52fc1ce5add0db05", SortedAfter)
   ].
 
 Definition site_eqb (g : string * string * string * string) (r : string * string * string * string * tag) : bool :=
@@ -73,9 +72,9 @@ Proof.
   rewrite forallb_forall in H. specialize (H g Hg). apply existsb_exists in H. exact H.
 Qed.
 
-(* the order-dependent sites are exactly the three known findings *)
+(* after the repairs e5e5314 and its two predecessors in cl there is NO order-dependent site left *)
 Definition order_dependent_sites : list string :=
   flat_map (fun r => match r with (_, _, _, _, OrderDependent k) => [k] | _ => [] end) reviewed.
 Lemma order_dependent_are_listed :
-  order_dependent_sites = ["projs-default-class-collision"; "gofile-type-errors-order"; "builddir-two-packages"].
+  order_dependent_sites = [].
 Proof. vm_compute. reflexivity. Qed.
